@@ -18,7 +18,9 @@ Op lines (strings/keys as hex, values as `raw~nrm` tokens, see harness/c10):
   mk h=H at=SVC f=F n=N uid=HEX | on h=H s=SCRIPT | snap | topo m=SVC:STATE,… (members; the other services are not) |
   p.mkf f=F n=N | p.mkb h=H f=F n=N uid=HEX | p.on f=F n=N s=SCRIPT | p.on h=H s=SCRIPT | u.<anything>
   SCRIPT = statements separated by `;` :
-  get/K set/K/V bind/UID id push query json keep/H pushto/F/N from/F/N updraw/HEX fromraw/HEX
+  get/K set/K/V bind/UID id push pushnw query json keep/H pushto/F/N from/F/N updraw/HEX fromraw/HEX
+  park f=F n=N svc=T t=TAG s=SCRIPT : the handler runs SCRIPT and suspends without answering;
+  resume t=TAG s=SCRIPT : it resumes, re-reads its session from its context, runs SCRIPT and answers
 -/
 namespace Cell2v.Driver.C10
 open Cell2v.Driver Cell2v.SessionData
@@ -107,6 +109,7 @@ def parseSOp (t : String) : Option (SOp Tok) :=
   | ["bind", u] => some (.bind u)
   | ["id"] => some .id
   | ["push"] => some .push
+  | ["pushnw"] => some .pushNW
   | ["query"] => some .query
   | ["json"] => some .json
   | ["keep", h] => some (.keep h)
@@ -162,16 +165,74 @@ def parseOp (ws : List String) : Option (Op Tok) :=
     | _, _, _ => none
   | _ => none
 
-def stepLine (s : State Tok) (line : String) : State Tok × String :=
+/-- driver state: the model's state and the suspended handlers (tag ↦ connection, front-local?) -/
+structure DSt where
+  st : State Tok := State.init
+  parked : List (String × (Conn × Bool)) := []
+
+def relayOf (s : State Tok) (c : Conn) : String :=
+  match lget s.fronts c with
+  | some m => showJson (SData.toJson m)
+  | none => "-"
+
+def hasKeep (sc : List (SOp Tok)) : Bool := sc.any fun o => match o with | .keep _ => true | _ => false
+
+def frontType (c : Conn) : String := (cfg.typeOf c.1).getD ""
+
+def stepLine (d : DSt) (line : String) : DSt × String :=
   let ws := words line
+  let s := d.st
   match ws.head? with
-  | some "reset" => (State.init, "ok")
+  | some "reset" => ({}, "ok")
+  | some "park" =>
+    match kvConn ws, kv ws "svc", kv ws "t", (kv ws "s").bind parseScript with
+    | some c, some svc, some tag, some sc =>
+      if hasKeep sc || d.parked.any (·.1 == tag) then (d, "bad-op")
+      else
+        let local_ := cfg.typeOf c.1 == some svc
+        let r := step cfg s (.req c svc false (if local_ then sc else sc ++ [.keep ("@" ++ tag)]))
+        match r.obs with
+        | .ran a none rs _ =>
+          ({ st := r.st, parked := (tag, (c, true)) :: d.parked }, s!"at={strOfHex a} local r={showRs rs} resp=parked")
+        | .ran a (some e) rs _ =>
+          ({ st := r.st, parked := (tag, (c, false)) :: d.parked },
+            s!"at={strOfHex a} uid=s{e.uid} front={strOfHex e.frontId} conn=n{e.sessionId} r={showRs rs.dropLast} resp=parked")
+        | o => ({ d with st := r.st }, showObs o)
+    | _, _, _, _ => (d, "bad-op")
+  | some "resume" =>
+    match kv ws "t", (kv ws "s").bind parseScript with
+    | some tag, some sc =>
+      match d.parked.find? (·.1 == tag) with
+      | none => (d, "noparked")
+      | some (_, (c, isFront)) =>
+        let d := { d with parked := d.parked.filter (·.1 != tag) }
+        let live := (lget s.fronts c).isSome
+        if hasKeep sc then (d, "bad-op")
+        else if isFront then
+          if !live then (d, "closed")
+          else
+            let r := step cfg s (.req c (frontType c) false sc)
+            match r.obs with
+            | .ran _ _ rs _ => ({ d with st := r.st }, s!"r={showRs rs} resp=ok relay={relayOf r.st c}")
+            | o => ({ d with st := r.st }, showObs o)
+        else
+          let r := step cfg s (.on ("@" ++ tag) sc)
+          match r.obs with
+          | .script rs =>
+            ({ d with st := r.st }, s!"r={showRs rs} " ++ (if live then s!"resp=ok relay={relayOf r.st c}" else "resp=gone relay=-"))
+          | o => ({ d with st := r.st }, showObs o)
+    | _, _ => (d, "bad-op")
   | some w =>
-    if w.startsWith "u." then (s, "unguarded")
+    if w.startsWith "u." then (d, "unguarded")
     else match parseOp ws with
-      | some op => let r := step cfg s op; (r.st, showObs r.obs)
-      | none => (s, "bad-op")
-  | none => (s, "bad-op")
+      | some op =>
+        let r := step cfg s op
+        let extra := match op, r.obs with
+          | .req c _ _ _, .ran _ _ _ resp => " relay=" ++ (if resp == .ok then relayOf r.st c else "-")
+          | _, _ => ""
+        ({ d with st := r.st }, showObs r.obs ++ extra)
+      | none => (d, "bad-op")
+  | none => (d, "bad-op")
 
 /-! ### the property predicate on implementation observations
 
@@ -223,6 +284,7 @@ structure Spec where
   deadTouched : Bool := false                          -- a push/query addressed a dead connection since the last snap
   alt : List ((String × Nat) × Log) := []             -- the same logs WITHOUT the pushes of sessions that had queried while
                                                        -- dirty: what the maps would be under defect D16 (only used to name it)
+  parked : List (String × ((String × Nat) × Bool)) := []  -- suspended handlers: tag ↦ (connection, front-local?)
   off : Bool := false                                  -- a violation was reported: nothing more is judged until the next reset
 
 def fronts : List String := ["gate-1", "gate-2"]
@@ -291,7 +353,7 @@ def specSOp (st : ScSt) (t : String) : ScSt × Exp :=
       (st, ⟨(match log.find hexKeyUId with
         | some v => if isStrTok v.raw then v.raw else "panic"
         | none => "s"), "C10/envelope-stale"⟩)
-    | ["push"] | ["query"] => (st, ⟨if isNode then "ok" else "nons", "C10/front-push-query"⟩)
+    | ["push"] | ["pushnw"] | ["query"] => (st, ⟨if isNode then "ok" else "nons", "C10/front-push-query"⟩)
     -- after `|`: what defect D16 would show instead (only used to name it)
     | ["json"] => (st, ⟨showSnapMap log, "C10/merge-wrong|" ++ showSnapMap ((st.sp.altOf c).getD log)⟩)
     | ["keep", _] => (st, ⟨"nokeep", "C10/harness"⟩)
@@ -367,7 +429,12 @@ where hexStrN := "n"
 def specScript (sp : Spec) (sess : SSess) (kept : Option String) (script : String) : ScSt × List Exp :=
   if script.isEmpty then (⟨sp, sess, kept⟩, [])
   else (script.splitOn ";").foldl (fun (acc : ScSt × List Exp) t =>
-    let r := specSOp acc.1 t
+    -- `pushnw`: a push whose callback the handler does not wait for — same effect, at once; it reports nothing
+    let r := if t == "pushnw" then
+        (match acc.1.sess with
+          | .back b => let r := specSOp acc.1 "push"; if b.ns == "" then r else (r.1, (⟨"ok", "C10/push-result-wrong"⟩ : Exp))
+          | .front _ => specSOp acc.1 t)
+      else specSOp acc.1 t
     (r.1, acc.2 ++ [r.2])) (⟨sp, sess, kept⟩, [])
 
 def storeKeptS (st : ScSt) : Spec :=
@@ -403,6 +470,16 @@ def routeOf (log : Log) : String × String :=
 
 def obsField (ows : List String) (k : String) : String := (kv ows k).getD ""
 
+/-- the response check of a finished handler: the answer, and the connection's map at the moment the front
+relays it — everything the handler pushed before it answered must already be there -/
+def checkAnswer (sp' : Spec) (c : String × Nat) (ntf : Bool) (op obs : String) (ows : List String) : Spec × String :=
+  let wr := if ntf then "none" else "ok"
+  if obsField ows "resp" != wr then viol sp' "C10/response" op obs ("wanted resp=" ++ wr)
+  else
+    let wantRelay := if ntf then "-" else match sp'.conn c with | some l => showSnapMap l | none => "-"
+    if obsField ows "relay" == wantRelay then (sp', "ok")
+    else viol sp' "C10/push-after-response" op obs ("at the relay of the answer the map must be " ++ wantRelay)
+
 def specLine (sp : Spec) (line : String) : Spec × String :=
   match line.splitOn "\t" with
   | [op, obs] =>
@@ -435,11 +512,20 @@ def specLine (sp : Spec) (line : String) : Spec × String :=
           let want := if live then "ok" else "closed"
           if obs == want then (sp', "ok") else viol sp' "C10/close" op obs ("wanted " ++ want)
         | _, _ => (sp, "bad-op")
-      | "req" =>
+      | "req" | "park" =>
         match kv ws "f", kvNat ws "n", kv ws "svc", kv ws "s" with
         | some f, some n, some svc, some script =>
           let c := (f, n)
           let ntf := kv ws "ntf" == some "1"
+          let tag := if w == "park" then kv ws "t" else none
+          -- a suspended handler has not answered yet; its session is remembered under its tag
+          let finish (sp' : Spec) (isFront : Bool) : Spec × String :=
+            match tag with
+            | none => checkAnswer sp' c ntf op obs ows
+            | some t =>
+              if obsField ows "resp" == "parked" then ({ sp' with parked := (t, (c, isFront)) :: sp'.parked }, "ok")
+              else viol sp' "C10/response" op obs "wanted resp=parked"
+          if tag.isSome && ((script.splitOn "keep/").length > 1 || sp.parked.any (fun e => some e.1 == tag)) then (sp, "ok") else
           match sp.conn c with
           | none => if obs == "closed" then (sp, "ok") else viol sp "C10/closed-connection-served" op obs "connection is not live"
           | some log =>
@@ -451,9 +537,7 @@ def specLine (sp : Spec) (line : String) : Spec × String :=
               if !obs.startsWith want then viol st.sp "C10/routing-ignored-pushed-data" op obs ("wanted " ++ want)
               else match cmpResults exps (obsField ows "r") with
                 | some (sig, why) => viol st.sp sig op obs why
-                | none =>
-                  let wr := if ntf then "none" else "ok"
-                  if obsField ows "resp" == wr then (st.sp, "ok") else viol st.sp "C10/response" op obs ("wanted resp=" ++ wr)
+                | none => finish st.sp true
             else
               -- forwarded: the rule reads the CURRENT map of the connection, the envelope its current uid
               let (inst, uidTok) := routeOf log
@@ -472,7 +556,7 @@ def specLine (sp : Spec) (line : String) : Spec × String :=
                 else if !isStrTok uidTok then noneWith "none"     -- outside the guard: `_ID` is not a string
                 else
                   let b : SB := ⟨inst, f, n, [], false, [(hexKeyUId, ⟨uidTok, uidTok, true⟩)], false⟩
-                  let (st, exps) := specScript sp (.back b) none script
+                  let (st, exps) := specScript sp (.back b) (tag.map ("@" ++ ·)) script
                   let sp' := storeKeptS st
                   if obsField ows "at" != inst then
                     viol sp' (d16 (obsField ows "at") (obsField ows "uid") "C10/routing-ignored-pushed-data") op obs ("the rule names " ++ inst)
@@ -480,10 +564,34 @@ def specLine (sp : Spec) (line : String) : Spec × String :=
                     viol sp' (d16 (obsField ows "at") (obsField ows "uid") "C10/envelope-stale") op obs s!"wanted uid={uidTok} front={f} conn=n{n}"
                   else match cmpResults exps (obsField ows "r") with
                     | some (sig, why) => viol sp' sig op obs why
-                    | none =>
-                      let wr := if ntf then "none" else "ok"
-                      if obsField ows "resp" == wr then (sp', "ok") else viol sp' "C10/response" op obs ("wanted resp=" ++ wr)
+                    | none => finish sp' false
         | _, _, _, _ => (sp, "bad-op")
+      | "resume" =>
+        match kv ws "t", kv ws "s" with
+        | some t, some script =>
+          match sp.parked.find? (·.1 == t) with
+          | none => if obs == "noparked" then (sp, "ok") else viol sp "C10/harness" op obs "wanted noparked"
+          | some (_, (c, isFront)) =>
+            let sp := { sp with parked := sp.parked.filter (·.1 != t) }
+            let live := (sp.conn c).isSome
+            if (script.splitOn "keep/").length > 1 then (sp, "ok")
+            else if isFront && !live then (if obs == "closed" then (sp, "ok") else viol sp "C10/closed-connection-served" op obs "connection is not live")
+            else
+              -- the resumed handler goes on with the session of ITS request
+              let sess? : Option (SSess × Option String) :=
+                if isFront then some (.front c, none)
+                else (sp.hs.find? (·.1 == "@" ++ t)).map fun e => (.back e.2, some ("@" ++ t))
+              match sess? with
+              | none => (sp, "ok")
+              | some (sess, kept) =>
+                let (st, exps) := specScript sp sess kept script
+                let sp' := storeKeptS st
+                match cmpResults exps (obsField ows "r") with
+                | some (sig, why) => viol sp' (if sig == "C10/get-wrong" || sig == "C10/envelope-stale" then "C10/handler-on-wrong-session" else sig) op obs why
+                | none =>
+                  if live then checkAnswer sp' c false op obs ows
+                  else if obsField ows "resp" == "gone" then (sp', "ok") else viol sp' "C10/response" op obs "wanted resp=gone"
+        | _, _ => (sp, "bad-op")
       | "mk" =>
         match kv ws "h", kv ws "at", kv ws "f", kvNat ws "n", kv ws "uid" with
         | some h, some a, some f, some n, some u =>
@@ -554,4 +662,4 @@ open Cell2v.Driver in
 def main (args : List String) : IO Unit :=
   match args with
   | ["spec"] => runLoop Cell2v.Driver.C10.specLine {}
-  | _ => runLoop Cell2v.Driver.C10.stepLine Cell2v.SessionData.State.init
+  | _ => runLoop Cell2v.Driver.C10.stepLine {}
